@@ -168,7 +168,9 @@ def case(rng):
     if p == "equal?" and rng.random() < 0.3:
         # the SAME structure with ONE leaf replaced by a near-equal datum: a number of the other exactness (2 / 2.0, 1/2 / 0.5),
         # a string for a symbol, a character for a symbol, #t for a non-#f value: equal? is eqv? on the leaves
-        twins = [("2", "2.0"), ("1/2", "0.5"), ("0", "0.0"), ("a", '"a"'), ("a", "#\\a"), ("1", "#t"), ("()", "#f"), ("-1", "-1.0")]
+        twins = [("2", "2.0"), ("1/2", "0.5"), ("0", "0.0"), ("a", '"a"'), ("a", "#\\a"), ("1", "#t"), ("()", "#f"), ("-1", "-1.0"),
+                 # ... and leaves that ARE equal although not the same object: strings, characters, ratios, reals
+                 ('"ab"', '"ab"'), ('""', '""'), ("#\\a", "#\\a"), ("1/2", "1/2"), ("2.5", "2.5"), ('"ab"', '"ab"')]
         x, y = rng.choice(twins)
         if rng.random() < 0.5: x, y = y, x
         def shape(d, leaf):
@@ -181,7 +183,7 @@ def case(rng):
             return "(" + " ".join(items) + ")"
         st = rng.getstate(); a = shape(3, x); rng.setstate(st); b = shape(3, y)
         same = rng.random() < 0.25
-        return ["(equal? '%s '%s)" % (a, a if same else b)], ["V #t" if same else "V #f"]
+        return ["(equal? '%s '%s)" % (a, a if same else b)], ["V #t" if same or a == b else "V #f"]
     if p == "equal?":
         a = gen_list(rng, 4, 2, improper=0.2)
         b = a if rng.random() < 0.5 else gen_list(rng, 4, 2, improper=0.2)
